@@ -22,14 +22,14 @@ RULE = ("programs of 1-6 Echo commands (string, number, boolean, path, data type
         "non-ASCII, leading/trailing blanks, empty, control characters) and numbers (huge ints, exponent-form floats, -0.0), built from "
         "source and through add_command (names and Command objects as references); plus random EEMS models from source and API; "
         "distinct by (builder, parameter kinds used, string/number feature classes)")
-REQUIRED_COUNTERS = ["round_trips", "values_compared", "result_pairs_compared", "fixpoints_checked", "to_file_checks", "eems2_histories", "cli_runs_of_saved_files"]
+REQUIRED_COUNTERS = ["saved_strings_through_the_tool", "round_trips", "values_compared", "result_pairs_compared", "fixpoints_checked", "to_file_checks", "eems2_histories", "cli_runs_of_saved_files"]
 ASSUMPTIONS = ["layout of the text and key order of metadata are not judged", "type objects as argument values are never generated; non-finite numbers are compared by their bits",
                "result names are identifiers"]
 
 STR_POOL = ["plain", "two words", "", " lead", "trail ", "  ", 'say "hi"', "it's", "back\\slash", "C:\\path\\to\\file.csv", "a,b", "k: v", "[x]", "(y)", "a = b", "# not a comment",
             "é ü Ω 日本 —", "tab\there", "line\nbreak", "ls\u2028sep ps\u2029", "zero\u200bwidth", "bom\ufeffinside", "ideographic\u3000space", "ff\x0cvt\x0bnel\x85", "nul-free ctrl \x01\x1f\x7f", "emoji 😀",
             "cr\rlf", 'mix "\' \\ #:,=()[]', "\\", '"', "'", "\\\\n", "ends with backslash\\", "100%", "True", "1.5", "12", "Float", "1e-05", "01234", "007", "1.50", "+5", ".5", "1e3", "-0", "0x10", "1_000", "inf", "nan", " 12 ",
-            "e\u0301 not in composed form", "\u212b angstrom sign", "\u2126 ohm sign \ufb01 ligature", "\u1e9b\u0323 long s with dots"]
+            "{year}", "{}", "{{z}}", "a}b", "{pad}", "{0}", "%(x)s {", "cost in $$", "$$", "$NAME", "${x} $", "e\u0301 not in composed form", "\u212b angstrom sign", "\u2126 ohm sign \ufb01 ligature", "\u1e9b\u0323 long s with dots"]
 NUM_POOL = [0, 1, -1, 12, 2 ** 70, -2 ** 63, 0.0, -0.0, 1.5, 1e-05, 1e+22, 5e-324, 1.7976931348623157e+308, 0.1, 123456789.125, 2.5e-7, 1e16, 1e15]
 
 
@@ -196,6 +196,11 @@ def build(case, d):
             for k in ("Tup", "Metadata"):
                 if k in args:
                     args[k] = {kk: (None if vv == "$none" else True if vv == "$true" else (float(vv[5:]) if "." in vv else int(vv[5:])) if isinstance(vv, str) and vv.startswith("$num:") else vv) for kk, vv in args[k].items()}
+            if case["rseed"] % 3 == 0:
+                # list values handed over as tuples (any sequence is accepted by the programming interface)
+                for k in ("LN", "LS", "LB"):
+                    if isinstance(args.get(k), list):
+                        args[k] = tuple(args[k])
             if case["builder"] == "api-objects":
                 def objs(x):
                     if isinstance(x, list):
@@ -236,7 +241,7 @@ def canon(v):
     if isinstance(v, str):
         return ("str", v)
     if isinstance(v, (list, tuple)):
-        return ("list", [canon(x) for x in v])
+        return ("list" if isinstance(v, list) else "tuple", [canon(x) for x in v])       # a cleaned list is a list, whatever sequence was given
     if isinstance(v, dict):
         return ("dict", sorted((str(k), canon(x)) for k, x in v.items()))
     if isinstance(v, type):
@@ -409,6 +414,31 @@ def run_case(ctx, case):
         bad = [n for n in rp if rp[n] != rq.get(n)]
         ctx.fail("%s:results-differ" % builder, {"commands": bad[:4], "text": text[:800]})
         return
+    if case["kind"] == "echo" and case["rseed"] % 5 == 0:
+        # strings of this program handed to a command that writes down what it receives, the program saved with to_file and run
+        # by the command-line tool: the command receives the strings of the program
+        import json as _json
+        from click.testing import CliRunner
+        from mpilot.cli.mpilot import main
+        strs = [v for (r_, k_), v in raw_args.items() if k_ == "S" and isinstance(v, str)] + [x for (r_, k_), v in raw_args.items() if k_ == "LS" for x in v if isinstance(x, str)]
+        strs = [x for x in strs if "\x00" not in x][:4] or ["plain"]
+        dump = os.path.join(d, "dump.json")
+        P2 = Program(libraries=("usercmds",), working_dir=d)
+        P2.add_command(P2.find_command_class("Dump"), "D", {"OutFileName": dump, "NewFieldName": strs[0], "Anything": list(strs)})
+        fp2 = os.path.join(d, "for_tool.mpt")
+        P2.to_file(fp2)
+        try:
+            res = CliRunner(mix_stderr=False).invoke(main, ["eems-csv", fp2, "-l", "usercmds"])
+        except TypeError:
+            res = CliRunner().invoke(main, ["eems-csv", fp2, "-l", "usercmds"])
+        ctx.count("saved_strings_through_the_tool")
+        if res.exit_code != 0 or not os.path.exists(dump):
+            ctx.fail("tool:saved-program-fails", {"exit": res.exit_code, "exception": repr(res.exception)[:200], "strings": [repr(x)[:40] for x in strs]})
+            return
+        got = _json.load(open(dump, encoding="utf-8"))
+        if got != {"NewFieldName": strs[0], "Anything": list(strs)}:
+            ctx.fail("tool:saved-program-delivers-other-strings:%s" % _value_feature("S", strs), {"got": repr(got)[:300], "want": repr(strs)[:300]})
+            return
     # the saved file run by the command-line tool: a program that ran through the API runs through the tool as well
     if case["kind"] == "eems" and case["rseed"] % 3 == 0:
         from click.testing import CliRunner
